@@ -42,7 +42,8 @@ RAW_SNAP = ['vpH_raw_ReadySnap_sync_F', 'vpH_raw_ReadySnap_async_F']
 RAW_ALL = RAW + RAW_APPLY_Q + ['vpH_raw_ReadyApply_sync_L'] + RAW_SNAP
 RAW_ADV = ['vpH_raw_ReadyAdvance_F', 'vpH_raw_ReadyAdvance_C', 'vpH_raw_ReadyAdvance_L']
 RESTART = ['vpH_raw_Restart_2']
-ELECTION = ['vpH_raw_Election_sync', 'vpH_raw_Election_async']
+ELECTION = ['vpH_raw_Election_sync', 'vpH_raw_Election_async', 'vpH_raw_Election_async_outgoing']
+ELECTION_T = ['vpH_raw_Election_sync', 'vpH_raw_Election_async', 'vpH_raw_Election_async_joint']
 ACK = ['vpH_ack_ApplyResp_L', 'vpH_ack_ApplyResp_F', 'vpH_ack_ApplyResp_L_gone', 'vpH_ack_AppendResp_F', 'vpH_ack_AppendResp_L', 'vpH_ack_AppendResp_C']
 TICK = ['vpH_tick_CheckQuorum_et2', 'vpH_tick_CheckQuorum_inactive_et2', 'vpH_tick_CheckQuorum_singleton', 'vpH_tick_Election_F', 'vpH_tick_Election_C', 'vpH_tick_Election_P', 'vpH_tick_TransferAbort_et2']
 LOG = ['vpH_log_maybeAppend_0_2_1', 'vpH_log_slice_2_1', 'vpH_log_term_2_1', 'vpH_log_storageAppend_2_2', 'vpH_log_storageCompact_2', 'vpH_log_storageSnapshots_2', 'vpH_log_storageQueries_2', 'vpH_log_queries_1_1', 'vpH_log_unstableOps_1_2', 'vpH_log_maybeAppend_1_1_2']
@@ -59,6 +60,7 @@ ALL_STEP = VOTE + VRESP + HUP + HB + APP + SNAP + PROP + LEAD + LEAD_HBR + SMALL
 # quick-tier stand-ins for the three largest leader cells
 LEAD_HBR_Q = ['vpH_step_L_MsgHeartbeatResp_from2']
 LEAD_ACK_Q = ['vpH_step_L_MsgAppResp_from1', 'vpH_step_L_MsgAppResp_from2_lean']
+LEAD_ACK_JOINT = ['vpH_step_L_MsgAppResp_from2_joint']
 PROP_Q = step('FCP', 'MsgProp') + ['vpH_step_L_MsgProp_lean', 'vpH_step_L_MsgProp_bytes']
 
 specs = {}
@@ -111,7 +113,7 @@ prop("C07",
 
 prop("C02",
      H(VOTE, ["E2/", "E4/", "E5/", "H1/vote"]) + H(VRESP, ["E3/", "E4/", "E5/", "H1/vote"]) + H(HUP, ["E3/", "E4/", "E5/"]) + H(RESTART, ["E7/", "H4/"]) + H(ELECTION, ["E6/"]),
-     H(T(VOTE + VRESP + HUP + HB[:3] + APP[:1]), ["E2/", "E3/", "E4/", "E5/", "H1/vote"]) + H(['vpH_raw_Restart_3'], ["E7/", "H4/"]) + H(ELECTION, ["E6/"]),
+     H(T(VOTE + VRESP + HUP + HB[:3] + APP[:1]), ["E2/", "E3/", "E4/", "E5/", "H1/vote"]) + H(['vpH_raw_Restart_3'], ["E7/", "H4/"]) + H(ELECTION_T, ["E6/"]),
      BQ + BT + "Election harness: follower campaigns, Ready is taken, two arbitrary vote responses are stepped before the storage write completes (sync and async). " + OUT,
      "E2 grant rule (one vote per term, only to up-to-date logs, not while following a leader), E3 a node becomes leader only as a candidate by a MsgVoteResp of its own term that completes a joint-majority of granted votes, E4 provenance of tallied votes, E5 the self vote travels through the after-append queue, E6 leading only with a durable term, E7 restart as follower.")
 
